@@ -1,6 +1,69 @@
 (* C04 — Multi-partition reads are the complete, correctly attributed, time-ordered merge.
-   Property theorems only; each is closed by a lemma of proofs/MixerP.v / proofs/OffsetP.v. *)
-From LR Require Import lib.Base model.Iter model.Mixer model.Offset proofs.OffsetP.
+   Property theorems only; each is closed by lemmas of proofs/MixerP.v, proofs/IterP.v, proofs/OffsetP.v. *)
+From LR Require Import lib.Base model.Iter model.Mixer model.Offset proofs.MixerP proofs.IterP proofs.OffsetP.
+From Coq Require Import Permutation Sorting.Sorted.
+Open Scope Z_scope.
+
+(* The mixer tree as a state machine, for ANY leaf implementation that honours the iterator contract
+   (Get = head of what is left, Next = drop it): under every interleaving of Get, Next and Release (which clears
+   the eof flags) a tree in a consistent state behaves as a list cursor over the stable merge of its leaves. *)
+Theorem C04_mixer_refines_merge : forall (rest : leaf -> list ev) (ok : leaf -> Prop) (bk : bool),
+  (forall l, ok l -> ok (fst (l_get l)) /\ rest (fst (l_get l)) = rest l /\ snd (l_get l) = hd_error (rest l)) ->
+  (forall l, ok l -> ok (l_next l) /\ rest (l_next l) = tl (rest l)) ->
+  forall t ops fuel n, wf rest ok bk t -> Forall plain_op ops ->
+    run_ops fuel (mkCur t None None false n) ops = spec_run (content rest bk t) ops.
+Proof. intros rest ok bk Hg Hn t ops fuel n W P. exact (run_ops_spec rest ok bk Hg Hn ops fuel t n None false W P). Qed.
+Print Assumptions C04_mixer_refines_merge.
+
+(* newCursor's pairwise reduction: for every number n >= 1 of sources and every order in which the map iteration
+   meets them there is a tree, and its leaves are exactly the sources in that order (an odd source is carried over) *)
+Theorem C04_build_tree : forall srcs : list (nat * leaf), srcs <> [] ->
+  exists t, build_tree (map (fun s => MLeaf (fst s) (snd s)) srcs) = Some t /\ mx_leaves t = srcs /\ fresh false t.
+Proof. intros srcs N. destruct (build_tree_spec srcs N) as (t & E & F & L). exists t. auto. Qed.
+Print Assumptions C04_build_tree.
+
+(* The merged read. srcs: the selected sources with their tags in the order newCursor met them (any n >= 1, any
+   order, empty sources and ties allowed, contents unsorted or sorted), bk: the direction.
+   out = what the cursor delivers. (1) under every interleaving of Get/Next/Release the cursor is a list cursor
+   over out; (2) out is a permutation of the concatenation of what each source alone delivers, every event carrying
+   its own source's tag; (3) the events delivered with the tag of source g are exactly source g's events in source
+   g's order; (4) if every source delivers in time order so does the merge. *)
+Theorem C04_merge : forall (srcs : list (nat * leaf)) (bk : bool),
+  srcs <> [] -> NoDup (map fst srcs) -> Forall (fun s => leaf_ok false (snd s)) srcs ->
+  exists t0, build_tree (map (fun s => MLeaf (fst s) (snd s)) srcs) = Some t0 /\
+    let t := mx_set_backward bk t0 in
+    let alone := fun s : nat * leaf => leaf_items leaf_rest (fst s) (l_set_backward bk (snd s)) in
+    let out := content leaf_rest bk t in
+    (forall ops fuel n, Forall plain_op ops -> run_ops fuel (mkCur t None None false n) ops = spec_run out ops) /\
+    Permutation out (concat (map alone srcs)) /\
+    (forall s, In s srcs -> filter (fun x => Nat.eqb (it_src x) (fst s)) out = alone s) /\
+    (Forall (fun s => StronglySorted (ts_rel bk) (alone s)) srcs -> StronglySorted (ts_rel bk) out).
+Proof.
+  intros srcs bk N ND F. destruct (dir_tree bk srcs N F) as (t0 & E & Fr & L). exists t0. split; [exact E|]. cbv zeta.
+  assert (OK : Forall (fun s => leaf_ok bk (snd s)) (mx_leaves (mx_set_backward bk t0))).
+  { rewrite L. apply Forall_forall. intros s Hs. apply in_map_iff in Hs. destruct Hs as (s0 & <- & Hs0). cbn.
+    apply leaf_set_backward_ok. eapply Forall_forall in F; eassumption. }
+  pose proof (fresh_wf leaf_rest (leaf_ok bk) bk _ Fr OK) as W.
+  split; [|split; [|split]].
+  - intros ops fuel n P. exact (run_ops_spec leaf_rest (leaf_ok bk) bk (leaf_get_spec bk) (leaf_next_spec bk) ops fuel _ n None false W P).
+  - rewrite content_perm, L, map_map. reflexivity.
+  - intros s Hs. apply content_filter.
+    + rewrite L, map_map. cbn. exact ND.
+    + rewrite L. apply in_map_iff. exists s. split; [reflexivity|exact Hs].
+  - intros S. apply content_sorted. rewrite L. apply Forall_forall. intros s Hs. apply in_map_iff in Hs.
+    destruct Hs as (s0 & <- & Hs0). cbn. eapply Forall_forall in S; eassumption.
+Qed.
+Print Assumptions C04_merge.
+
+(* a source stored in time order delivers in time order in either direction (the hypothesis of (4) for stored data) *)
+Theorem C04_sorted_source : forall flat bk p tag, ev_sorted flat ->
+  StronglySorted (ts_rel bk) (map (fun e => (e, tag)) (rest_at flat bk p)).
+Proof.
+  intros flat bk p tag S. pose proof (rest_at_sorted flat bk p S) as R. induction R as [|e l R IH Fa]; cbn; constructor; auto.
+  apply Forall_forall. intros x Hx. apply in_map_iff in Hx. destruct Hx as (e' & <- & He'). eapply Forall_forall in Fa; [|exact He'].
+  unfold ts_rel, ev_rel, it_ts, ev_ts in *. cbn. exact Fa.
+Qed.
+Print Assumptions C04_sorted_source.
 
 (* the partition limit: 50 or more matching partitions -> the cursor is refused (never a silent subset);
    fewer -> every matching partition is a source of the cursor, in the order they were met *)
@@ -13,3 +76,30 @@ Proof.
   - destruct (Nat.ltb_spec (length m) merge_limit); [reflexivity|lia].
 Qed.
 Print Assumptions C04_limit.
+
+(* new_cursor: refused at the limit, otherwise the tree over all sources *)
+Theorem C04_new_cursor : forall srcs f p,
+  ((length srcs >= merge_limit)%nat -> new_cursor srcs f p = None) /\
+  ((0 < length srcs < merge_limit)%nat -> exists t, build_tree (map (fun s => MLeaf (fst s) (snd s)) srcs) = Some t /\
+      new_cursor srcs f p = Some (mkCur (apply_pos p t) f None false (length srcs))).
+Proof.
+  intros srcs f p. unfold new_cursor. rewrite get_journals_spec by (unfold merge_limit; lia). split; intros H.
+  - destruct (Nat.ltb_spec (length srcs) merge_limit); [lia|reflexivity].
+  - destruct (Nat.ltb_spec (length srcs) merge_limit); [|lia].
+    destruct (build_tree_spec srcs) as (t & E & _ & _); [destruct srcs; [cbn in H; lia|discriminate]|].
+    exists t. rewrite E. auto.
+Qed.
+Print Assumptions C04_new_cursor.
+
+(* non-vacuity: five in-memory sources (one empty, ties, one unsorted), odd carry-over twice; the merge of the
+   model run by the operations equals the statement's `out`, forward and backward *)
+Example C04_nonvacuous :
+  let mk := fun (g : nat) recs => (g, LMem (Z.of_nat g + 1) recs (mkCit 0 false)) in
+  let srcs := [mk 0%nat [(1, 1%nat); (5, 2%nat)]; mk 1%nat []; mk 2%nat [(5, 3%nat); (5, 4%nat)];
+               mk 3%nat [(9, 5%nat); (2, 6%nat)]; mk 4%nat [(5, 7%nat)]] in
+  Forall (fun s => leaf_ok false (snd s)) srcs /\
+  match build_tree (map (fun s => MLeaf (fst s) (snd s)) srcs) with
+  | Some t => map (fun x => snd (fst x)) (content leaf_rest false t) = [1; 2; 3; 4; 7; 5; 6]%nat /\ height t = 3%nat
+  | None => False
+  end.
+Proof. cbv zeta. split; [repeat constructor; cbn; lia|vm_compute; split; reflexivity]. Qed.
